@@ -330,6 +330,34 @@ type Hostile struct {
 	panicTyp string
 	panicVal interface{}
 	panicStk string
+	kept     []hostileKept // decoded values of the valid deliveries of this run
+}
+
+// hostileKept is one valid delivery: the canonical form of what was sent and
+// the value the victim's unmarshaler produced for it (kept alive).
+type hostileKept struct {
+	typ     string
+	sent    string
+	decoded interface{}
+}
+
+// Recheck compares every value decoded from a VALID payload earlier in the run
+// with what was sent once more. A decoded value must not change when later
+// messages are decoded (decoders must not share state between messages).
+// typ == "" rechecks all types. It returns false after recording a violation.
+func (h *Hostile) Recheck(typ string) bool {
+	for i, k := range h.kept {
+		if typ != "" && k.typ != typ {
+			continue
+		}
+		if now := Canon(k.decoded); now != k.sent {
+			h.R.Failf(h.Prop+":decoded-value-changed-after-later-decode:"+k.typ,
+				"valid %q message number %d of this run decoded to a value equal to the sent one, but after later deliveries to the same victim (%d valid ones plus the corrupted copies in between) that SAME decoded value differs from what was sent: %s",
+				k.typ, i+1, len(h.kept)-i-1, CanonDiff(k.sent, now))
+			return false
+		}
+	}
+	return true
 }
 
 // CheckNetPanic turns a panic raised by ANY unmarshaler of the Net since the
@@ -438,7 +466,13 @@ func (h *Hostile) RoundTripPayload(sent net.TaggedMarshaler, payload []byte) {
 	a, b := Canon(sent), Canon(msg.Body)
 	if a != b {
 		h.R.Failf(h.Prop+":roundtrip-mismatch:"+typ, "decoding the encoding of a %q message gives a different value, %s", typ, CanonDiff(a, b))
+		return
 	}
+	// earlier decoded values of this type must have survived this decode
+	if !h.Recheck(typ) {
+		return
+	}
+	h.kept = append(h.kept, hostileKept{typ: typ, sent: a, decoded: msg.Body})
 }
 
 // Attack delivers n tape-chosen corruptions of valid (an encoding of a message
@@ -477,6 +511,9 @@ func (h *Hostile) AttackWith(typ string, valid []byte, rcs []MutationRecipe) {
 		}
 		h.R.Probe("accepted:" + typ)
 		h.checkAccepted(typ, msg, kind)
+	}
+	if !h.R.Failed() {
+		h.Recheck("")
 	}
 }
 
